@@ -15,7 +15,9 @@ What run() does
    module (stand-alone projects, key `project`, are copied as they are instead);
 3. runs ONE `cargo kani -j <jobs> --output-into-files --harness-timeout ...` for the harnesses of the
    tier, in its own session/process group, with RLIMIT_AS = mem_gb per process (inherited by every
-   cbmc) and an overall wall timeout; the whole process group is killed afterwards;
+   cbmc) and an overall wall timeout; the whole process group is killed afterwards; harnesses that
+   were lost WITHOUT a verdict because the kani driver died under them (e.g. somebody's `pkill cbmc`)
+   are re-run once inside the same wall budget (`"retried": true` in their row);
 4. classifies every harness from its own result file (NOT from Kani's exit code):
      pass          `VERIFICATION:- SUCCESSFUL`
      fail          `VERIFICATION:- FAILED` AND at least one check with `Status: FAILURE` that is a
@@ -25,8 +27,9 @@ What run() does
      crashed       "CBMC failed" without a failed check (out of memory under the cap, solver abort)
      no-result     no result file (overall timeout hit first, or nothing was run)
    (Kani prints `VERIFICATION:- FAILED` for timeouts and crashes too - those are never "fail".)
-5. for failed harnesses, re-runs just those with `--concrete-playback print` to get concrete
-   values (the `witness`); a time-boxed best effort;
+5. for failed harnesses, re-runs the two cheapest of them (sequentially: Kani refuses
+   --concrete-playback together with --jobs) with `--concrete-playback print` to get concrete
+   values (the `witness`); a time-boxed best effort, the verdict does not depend on it;
 6. removes the scratch dir (with its target/) in a `finally` block.
 
 Result
@@ -498,13 +501,16 @@ def run(spec, tier='quick'):
                     lines.append('%s: FAILED "%s" at %s' % (x['name'], fc['description'], fc['location']))
             wit = None
             try:
-                fq_fail = [(mod + '::' + x['name']) if mod else x['name'] for x in fails][:3]
-                cmd2 = ['cargo', 'kani', '-j', str(min(jobs, len(fq_fail))), '--output-format', 'terse', '-Z', 'unstable-options',
+                # --concrete-playback is incompatible with --jobs: sequential, the two cheapest failed harnesses only
+                cheapest = sorted(fails, key=lambda x: x['seconds'] if x['seconds'] is not None else 1e9)[:2]
+                fq_fail = [(mod + '::' + x['name']) if mod else x['name'] for x in cheapest]
+                cmd2 = ['cargo', 'kani', '--output-format', 'terse', '-Z', 'unstable-options',
                         '--harness-timeout', '%ds' % h_to, '-Z', 'concrete-playback', '--concrete-playback', 'print', '--exact']
                 for h in fq_fail:
                     cmd2 += ['--harness', h]
                 cmd2 += list(s.get('cargo_args', []))
-                r2 = _Runner(cmd2, work, mem_gb, min(w_to, h_to + 120)).run()
+                r2 = _Runner(cmd2, work, mem_gb, min(w_to, 2 * h_to + 60)).run()
+                log += r2.out
                 peak = max(peak, r2.peak_rss_kb)
                 vals = _playback_values(r2.out)
                 parts = []
@@ -529,6 +535,8 @@ def run(spec, tier='quick'):
         if open_ and fails:
             res['detail'] += ' || not finished: ' + ', '.join('%s=%s' % (x['name'], x['result']) for x in open_)
         res['peak_cbmc_rss_mb'] = int(peak / 1024) if peak else None
+        with open(os.path.join(scratch, 'kani.log'), 'w') as f:
+            f.write(log)
         return res
     except Exception as e:  # never let a tool problem look like a verdict
         res['outcome'] = 'error'
